@@ -116,12 +116,20 @@ func (c *Choices) Draw(stream string, n int, gen func(r *Rand) int) int {
 // Bool draws a boolean that is true with probability p in seeded mode; false
 // is the default (0).
 func (c *Choices) Bool(stream string, p float64) bool {
-	return c.Draw(stream, 2, func(r *Rand) int {
+	v := c.Draw(stream, 2, func(r *Rand) int {
 		if r.Chance(p) {
 			return 1
 		}
 		return 0
 	}) == 1
+	// (a replayed tape cannot choose what the generator could not have chosen)
+	switch {
+	case p <= 0:
+		return false
+	case p >= 1:
+		return true
+	}
+	return v
 }
 
 // Pick draws an index into a list of n alternatives, uniformly.
@@ -129,6 +137,22 @@ func (c *Choices) Pick(stream string, n int) int { return c.Draw(stream, n, nil)
 
 // Weighted draws index i with probability weights[i]/sum.
 func (c *Choices) Weighted(stream string, weights []int) int {
+	v := c.weighted(stream, weights)
+	// a replayed (minimised) tape may name an alternative whose weight is zero in
+	// this configuration: such a run could never have been generated, so fall
+	// back to the first possible alternative
+	if v < len(weights) && weights[v] <= 0 {
+		for i, w := range weights {
+			if w > 0 {
+				return i
+			}
+		}
+		return 0
+	}
+	return v
+}
+
+func (c *Choices) weighted(stream string, weights []int) int {
 	return c.Draw(stream, len(weights), func(r *Rand) int {
 		sum := 0
 		for _, w := range weights {
